@@ -200,7 +200,17 @@ class Sim:
                 ti = alt[t % len(alt)]
                 tm = sm.tables[ti]
                 self.probe("pivot_table_avoided")
-        table = ds.doc.sheets[si].tables[ti] if self.real else None
+        table = None
+        if self.real:
+            by_name = self.cfg.get("by_name_every", 0) and (self.step_no % self.cfg["by_name_every"] == 0)
+            snames = [x.name for x in m.sheets]
+            tnames = [x.name for x in sm.tables]
+            if by_name and snames.count(sm.name) == 1 and tnames.count(tm.name) == 1:
+                # the same target addressed the way users usually do it: by sheet and table name
+                table = ds.doc.sheets[sm.name].tables[tm.name]
+                self.probe("target_addressed_by_name")
+            else:
+                table = ds.doc.sheets[si].tables[ti]
         return si, ti, tm, table
 
     def slot_path(self, slot: str) -> str:
